@@ -90,8 +90,21 @@ func (p sdPlugin) HandleConnClose(net.Conn) bool {
 
 type sdRig struct {
 	*srvRig
-	serveRet  chan error
-	slowClose int64 // nanoseconds the connection-close plugin takes
+	serveRet    chan error
+	slowClose   int64 // nanoseconds the connection-close plugin takes
+	holdArrived chan struct{}
+	holdRelease chan struct{}
+}
+
+// sdHoldPlugin: a slow post-read stage – a request whose metadata says so waits there until released
+type sdHoldPlugin struct{ r *sdRig }
+
+func (p sdHoldPlugin) PostReadRequest(ctx context.Context, r *protocol.Message, e error) error {
+	if r != nil && e == nil && r.Metadata["sdhold"] == "1" {
+		p.r.holdArrived <- struct{}{}
+		<-p.r.holdRelease
+	}
+	return nil
 }
 
 func newSdRig(pool bool) (*sdRig, error) {
@@ -104,8 +117,9 @@ func newSdRig(pool bool) (*sdRig, error) {
 	if err := s.RegisterName("Svc", &rigSvc{r}, ""); err != nil {
 		return nil, err
 	}
-	sr := &sdRig{srvRig: r, serveRet: make(chan error, 1)}
+	sr := &sdRig{srvRig: r, serveRet: make(chan error, 1), holdArrived: make(chan struct{}, 8), holdRelease: make(chan struct{}, 8)}
 	s.Plugins.Add(sdPlugin{&sr.slowClose})
+	s.Plugins.Add(sdHoldPlugin{sr})
 	// an application's shutdown / restart callbacks that look at the server they are handed (whether,
 	// when and how often the server runs them is its business; they must never make Shutdown hang)
 	s.RegisterOnShutdown(func(s *server.Server) { _ = s.ActiveClientConn(); _ = s.Address() })
@@ -554,6 +568,7 @@ func runC16(o *Out, r *rand.Rand) {
 			defer wg2.Done()
 			c16CloseDuringShutdown(o, pool)
 			c16ShutdownDuringShutdown(o, pool)
+			c16ReadHeld(o, pool)
 		}(i%2 == 0)
 	}
 	wg2.Wait()
@@ -631,6 +646,100 @@ func c16CloseDuringShutdown(o *Out, pool bool) {
 // c16ShutdownDuringShutdown: a second Shutdown is called while the first one is still waiting for a
 // request that was read before it began.  The second call must not disturb the drain: the request
 // runs to completion and its response reaches the peer before the connection is closed.
+// c16ReadHeld: request B has been READ and waits in a slow post-read stage (a rate limiter, a tracing
+// plugin) when Shutdown begins, while request A – running in its handler on another connection – keeps
+// the drain open.  B was read before the shutdown: once the stage lets it go it runs to completion and its
+// response is delivered; then A finishes and Shutdown returns nil.
+func c16ReadHeld(o *Out, pool bool) {
+	rig, err := newSdRig(pool)
+	if err != nil {
+		o.Violate("srv.rig", "cannot start: "+err.Error(), nil)
+		return
+	}
+	rp := map[string]any{"scenario": "A runs in its handler; B (other connection) is read and parked in a post-read plugin; Shutdown starts; B is let go; then A", "pool": pool}
+	idA, idB := nextSdID(), nextSdID()
+	gateA, startedA := rig.gate(idA)
+	pa, err := dialRaw(rig.addr)
+	if err != nil {
+		o.Violate("srv.rig", "cannot connect: "+err.Error(), nil)
+		return
+	}
+	defer pa.c.Close()
+	pb, err := dialRaw(rig.addr)
+	if err != nil {
+		o.Violate("srv.rig", "cannot connect: "+err.Error(), nil)
+		return
+	}
+	defer pb.c.Close()
+	pa.send(rawReq{id: idA, seq: uint64(idA), path: "Svc", method: "Do", ser: protocol.JSON, args: &SArgs{ID: idA, Mode: "ok"}})
+	select {
+	case <-startedA:
+	case <-time.After(2 * time.Second):
+		o.Violate("srv.rig", "handler did not start", nil)
+		return
+	}
+	pb.send(rawReq{id: idB, seq: uint64(idB), path: "Svc", method: "Do", ser: protocol.JSON, args: &SArgs{ID: idB, Mode: "ok"}, meta: map[string]string{"sdhold": "1"}})
+	select {
+	case <-rig.holdArrived:
+	case <-time.After(2 * time.Second):
+		o.Violate("srv.rig", "the held request did not reach the post-read stage", nil)
+		return
+	}
+	var viol []Violation
+	var sdErr error
+	done := make(chan struct{})
+	go func() {
+		ctx, cancel := context.WithTimeout(context.Background(), 10*time.Second)
+		defer cancel()
+		safely("Shutdown", &viol, rp, func() { sdErr = rig.s.Shutdown(ctx) })
+		close(done)
+	}()
+	time.Sleep(80 * time.Millisecond)
+	rig.holdRelease <- struct{}{}
+	msgsB, _ := pb.readAll(1, 2*time.Second)
+	o.Eval(fmt.Sprintf("read-held pool=%v", pool), true)
+	o.Count("read-held.schedules")
+	earlyReturn := false
+	select {
+	case <-done:
+		earlyReturn = true
+	default:
+	}
+	close(gateA)
+	msgsA, _ := pa.readAll(1, 2*time.Second)
+	select {
+	case <-done:
+	case <-time.After(11 * time.Second):
+		o.Violate("c16.shutdown-hangs", "Shutdown did not return", rp)
+		return
+	}
+	select {
+	case <-rig.serveRet:
+	case <-time.After(3 * time.Second):
+		o.Violate("c16.serve-did-not-return", "the serve loop did not return after Shutdown", rp)
+	}
+	for _, v := range viol {
+		o.Violate(v.Kind, v.Detail, v.Replay)
+	}
+	rp["shutdown_returned"] = fmt.Sprint(sdErr)
+	rp["handler_invocations_of_B"] = rig.invocations(idB)
+	if earlyReturn {
+		o.Violate("c16.shutdown-did-not-wait", "Shutdown returned while request A was still running in its handler", rp)
+		return
+	}
+	if len(msgsB) != 1 || msgsB[0].Seq() != uint64(idB) || msgsB[0].MessageStatusType() == protocol.Error {
+		o.Violate("c16.lost-response.read-before-shutdown", fmt.Sprintf("request B, read before Shutdown began and parked in a post-read plugin, got %d responses (its handler ran %d times) although the drain was still open", len(msgsB), rig.invocations(idB)), rp)
+		return
+	}
+	if len(msgsA) != 1 {
+		o.Violate("c16.lost-response.counted."+map[bool]string{false: "goroutine", true: "pool"}[pool], "request A, running when Shutdown began, got no response", rp)
+		return
+	}
+	if sdErr != nil {
+		o.Violate("c16.shutdown-error", "Shutdown returned "+sdErr.Error()+" although its deadline had not expired", rp)
+	}
+}
+
 func c16ShutdownDuringShutdown(o *Out, pool bool) {
 	rig, err := newSdRig(pool)
 	if err != nil {
